@@ -2,6 +2,7 @@ import PoolProofs.C19Lemmas
 import PoolProofs.C19LemmasRpc
 import PoolProofs.C19LemmasStr
 import PoolModel.Generated.C19State
+import PoolModel.Generated.C19Locks
 /-! # C19 — decoding untrusted tickets and auctioneer batch messages never crashes
 
 Headline theorems about the model of sidecar/tlv.go + sidecar/codec.go (`Pool.Dec.deserializeTicket`,
@@ -77,10 +78,24 @@ data race (a concurrent map access is a fatal, unrecoverable runtime error).  Th
 function the model mirrors. -/
 theorem C19_parsers_touch_no_package_state :
     Pool.Gen.C19.parserStateWrites = [] ∧
+    -- the only package-level variable the order parsers mention at all is the constant zero nonce
+    Pool.Gen.C19.orderParseVars = ["ZeroNonce : Nonce"] ∧
     (∀ f ∈ ["ParseRPCBatch", "ParseRPCMatchedOrders", "ParseRPCServerAsk", "ParseRPCServerBid",
              "ParseRPCServerOrder", "parseNodeAddrs", "ParseRPCSign"], f ∈ Pool.Gen.C19.orderParseCallGraph) ∧
     (∀ f ∈ ["DecodeString", "DeserializeTicket", "deserializeOffer", "deserializeRecipient", "deserializeOrder",
              "deserializeExecution", "decodeBytes", "DSig", "DBytes8"], f ∈ Pool.Gen.C19.sidecarCodecCallGraph) := by
+  decide
+
+/-- (regenerated fact) "Never fails to terminate" on the reject paths: the model's handlers are straight-line
+code after parsing.  In the source the only way such code can block forever is re-locking a non-reentrant
+`sync.Mutex`: no method of `SidecarAcceptor` or `rpcServer` calls – between a `Lock()` of one of its
+receiver's mutexes and the matching `Unlock()` (to the end of the function when deferred) – a sibling method
+that (transitively) locks the same mutex.  (`handleServerMessage` holds the acceptor's embedded mutex, the
+helpers it reaches lock `pendingSidecarOrdersMtx` only.) -/
+theorem C19_handlers_never_relock_a_held_mutex :
+    Pool.Gen.C19.relockSites = [] ∧
+    "SidecarAcceptor.handleServerMessage locks recv" ∈ Pool.Gen.C19.methodLocks ∧
+    "SidecarAcceptor.getSidecarAsOrder locks recv.pendingSidecarOrdersMtx" ∈ Pool.Gen.C19.methodLocks := by
   decide
 
 /-- For EVERY decoded prepare message — any sub-message absent, any key / hex / address / tx malformed —
